@@ -60,7 +60,7 @@ GAMMAS = [0.1, 1.0, 10.0, 'inf', 1e-3, 1e3]
 def cases(tier, seed):
   out = []
   q = tier == 'quick'
-  n = 48 if q else 640
+  n = 48 if q else 2400
   for i in range(n):
     r = rng_for('c11', seed, i)
     name = 'ITML_Supervised' if i % 4 == 3 else 'ITML'
